@@ -195,6 +195,13 @@ namespace cs
                     h = LeafShared(&env.leaf[1 - leaf]);
                     return a;
                 }
+                if (any_made % 5 == 4)
+                {
+                    // assignment re-seats a type-erased allocator, also between two allocator objects of one type
+                    Alloc a(env.la[1 - leaf]);
+                    a = Alloc(env.la[leaf]);
+                    return a;
+                }
                 if (any_made % 2)
                 {
                     fm::any_allocator_reference tmp(env.la[leaf]);
@@ -222,6 +229,7 @@ namespace cs
         const int         leaves     = Flavour == 6 ? 4 : 2;
         std::size_t       log_pos    = 0;
 
+        std::string deferred_equality;
         const long owners_before = Owner::live();
         int        last_leaf[4]  = {s[0].leaf, s[1].leaf, s[2].leaf, s[3].leaf};
         auto check = [&](const char* what, int step)
@@ -270,7 +278,7 @@ namespace cs
                     }
                     last_leaf[i] = s[i].leaf;
                     if (at != s[i].leaf)
-                        violate("C10", "bound_to_wrong_allocator", "%s: container %d (%s) is bound to allocator "
+                        violate("C10,C09", "bound_to_wrong_allocator", "%s: container %d (%s) is bound to allocator "
                                                                    "object %d, it was given / should have kept %d",
                                 what, i, K::name, at, s[i].leaf);
                 }
@@ -284,6 +292,20 @@ namespace cs
                 {
                     bool eq   = s[i].c->get_allocator() == s[j].c->get_allocator();
                     bool want = !stateful || s[i].leaf == s[j].leaf;
+                    if (Flavour == 1 && eq && !want)
+                    {
+                        // known finding K02 (type-erased allocators always compare equal): noted, reported at the end
+                        // of the run, so that the rest of the history is still checked by every other oracle
+                        if (deferred_equality.empty())
+                        {
+                            char b[300];
+                            std::snprintf(b, sizeof b, "%s: allocators of containers %d and %d compare equal, they "
+                                                       "refer to different allocator objects (%s)",
+                                          what, i, j, K::name);
+                            deferred_equality = b;
+                        }
+                        continue;
+                    }
                     if (eq != want)
                         violate("C10", "allocator_equality", "%s: allocators of containers %d and %d compare %s, "
                                                              "they refer to %s allocator object (%s)",
@@ -515,5 +537,7 @@ namespace cs
                 violate("C10", "memory_not_returned", "allocator %d still has %zu allocation(s) after all %s "
                                                       "containers are gone",
                         l, env.leaf[l].live.size(), K::name);
+        if (!deferred_equality.empty())
+            violate("C10", "allocator_equality", "%s", deferred_equality.c_str());
     }
 } // namespace cs
